@@ -9,6 +9,7 @@ A run is a pure function of its trace:
 See DESIGN.md section 2.
 """
 import functools
+import os
 from collections import Counter
 
 from dsim import HarnessError, Violation
@@ -762,7 +763,13 @@ def gen_trace(seed):
     steps = []
     tok = [0]
 
+    p_repeat = rc.choice([0.0, 0.0, 0.08, 0.2])
+
     def newtok():
+        # mostly unique payloads; sometimes the *same* payload again (two distinct messages with equal content
+        # must both be delivered -- a de-duplicating "optimisation" would be wrong)
+        if tok[0] and ro.random() < p_repeat:
+            return "m%d" % ro.randint(max(1, tok[0] - 2), tok[0])
         tok[0] += 1
         return "m%d" % tok[0]
 
@@ -1028,10 +1035,11 @@ TIERS = {
     "thorough": {"runs": 3000000, "wall": 780, "chunk": 1000, "det_sample": 192, "min_wall": 120.0},
 }
 SWEEP_CAP = 24
+PAIR_SWEEP_MAX_R = 8
 RULE = ("Seeded generation of router histories (1-2 hubs, 1-4 endpoints each, in-memory doubles and real UDPObjects "
         "on a simulated socket module, 0-3 sinks/sources, 0-3 peers, <=60 steps, per-run op mix and fault mode); "
         "each fault-free-at-k history is re-executed with the no-data fault forced at every receive position k "
-        "(up to %d positions per history). An execution is non-trivial iff at least one data-bearing receive had a "
+        "(up to %d positions per history; thorough tier: also at every pair of positions of histories with <= 8 receives). An execution is non-trivial iff at least one data-bearing receive had a "
         "registered destination/sink to deliver to, or a spin called a registered source; distinct = distinct event-log "
         "digest. states/transitions = distinct abstract (rule tables, open flags, inbox occupancy class) states and "
         "(coarse state, op, outcome) transitions." % SWEEP_CAP)
@@ -1083,6 +1091,15 @@ def variants(trace, run):
         t = dict(trace)
         t["nodata"] = sorted(base + [k])
         out.append(t)
+    if os.environ.get("VERIF_TIER") == "thorough" and 2 <= R <= PAIR_SWEEP_MAX_R:
+        # thorough tier: the no-data fault at every PAIR of receive positions of short histories
+        for a in range(R):
+            for b in range(a + 1, R):
+                if a in base or b in base:
+                    continue
+                t = dict(trace)
+                t["nodata"] = sorted(base + [a, b])
+                out.append(t)
     return out
 
 
